@@ -159,9 +159,23 @@ def detector_shape(ctx, P):
         ctx.violation(ob, "R10.detector-pure", "StateDigraph.detect_deadlock", "reads self.%s" % reads, "detector-reads-other-state",
                       "the verdict must depend on the wait-for graph only", loc(fn))
     scan = [x for x in ast.walk(fn) if isinstance(x, ast.For) and "strongly_connected_components(self.statedigraph)" in unparse(x.iter)]
-    comp_scan = [x for x in rules.walk(P, dview, fn) if isinstance(x, ast.comprehension) and "strongly_connected_components(self.statedigraph)" in unparse(x.iter)]
+    single = {}
+    for x in ast.walk(fn):
+        if isinstance(x, ast.Assign) and len(x.targets) == 1 and isinstance(x.targets[0], ast.Name):
+            single.setdefault(x.targets[0].id, []).append(x.value)
+    def iter_text(it):      # `components = nx.strongly_connected_components(...)` named once and iterated
+        if isinstance(it, ast.Name) and len(single.get(it.id, [])) == 1:
+            return unparse(single[it.id][0])
+        return unparse(it)
+    scan = [x for x in ast.walk(fn) if isinstance(x, ast.For) and "strongly_connected_components(self.statedigraph)" in iter_text(x.iter)]
+    comp_scan = [x for x in rules.walk(P, dview, fn) if isinstance(x, ast.comprehension) and "strongly_connected_components(self.statedigraph)" in iter_text(x.iter)]
     if not scan and comp_scan:
-        pass        # any(... for c in strongly_connected_components(...)): the scan is the whole expression, nothing can precede it
+        # any(... for c in strongly_connected_components(...)): the scan is one expression; no answer may be given before its statement
+        own = [c for c in comp_scan if any(c is y for y in ast.walk(fn))]
+        for c in own[:1]:
+            for r in [x for x in ast.walk(fn) if isinstance(x, ast.Return)]:
+                if not any(c is y for y in ast.walk(r)) and scans_precedes(fn, r, c):
+                    ctx.violation(ob, "R10.detector-pure", "StateDigraph.detect_deadlock", unparse(r), "early-exit-before-scan", "the detector answers before it has looked at the graph", loc(r))
     elif not scan:
         ctx.violation(ob, "R10.detector-pure", "StateDigraph.detect_deadlock", "component scan", "no-component-scan", "the knot search must examine the strongly connected components of the digraph", loc(fn))
     else:
@@ -219,7 +233,7 @@ def loop(ctx, P, iters):
         if e.kind == "call":
             return e.d["meth"] in ("event_and_return_nextnode", "detect_deadlock", "hash_state")
         if e.kind == "assign":
-            return e.d["target"] in ("self.current_time", tname, "self.times_to_deadlock") or e.d["target"].startswith("self.times_dictionary[")
+            return e.d["target"] in ("self.current_time", tname, "self.times_to_deadlock") or e.d["target"].startswith("self.times_dictionary[") or bool(e.d.get("local"))
         return e.kind in ("iter", "loopexit") and isinstance(e.node, ast.While)
     w = Walker(P, sim, keep=keep, track=lambda t, f: True, inline=rules.new_helper, loop_iters=iters)
     n_iter = 0
@@ -276,6 +290,7 @@ def loop(ctx, P, iters):
             vn = e.d["value_node"]
             ob.ok("times_to_deadlock", e.text)
             okk = False
+            vn = rules.items_as_lookups(vn)
             if isinstance(vn, ast.DictComp) and len(vn.generators) == 1 and not vn.generators[0].ifs:
                 g = vn.generators[0]
                 kv = unparse(g.target)
@@ -298,7 +313,8 @@ def check_iteration(body, viol, st, ob):
             kinds.append({"event_and_return_nextnode": "E", "detect_deadlock": "D", "hash_state": "H"}[e.d["meth"]])
         elif e.kind == "assign":
             t = e.d["target"]
-            kinds.append("C" if t == "self.current_time" else "T" if t == NAMES["t"] else "W" if t.startswith("self.times_dictionary[") else "?")
+            kinds.append("C" if t == "self.current_time" else "T" if t == NAMES["t"] else "W" if t.startswith("self.times_dictionary[") else
+                         "?" if t == "self.times_to_deadlock" else "g")
         else:
             kinds.append("g")
     seq = "".join(k for k in kinds if k != "g")
@@ -306,9 +322,27 @@ def check_iteration(body, viol, st, ob):
     if seq.count("E") != 1 or not seq.startswith("E"):
         viol("one-event-per-iteration", seq, "each iteration must execute exactly one event first", body[0].where if body else "", st)
         return
-    if seq.count("C") != 1 or not seq.endswith("C"):
+    if seq.count("C") != 1 or any(k in seq[seq.index("C"):] for k in "EHWD"):
         viol("clock-advance-last", seq, "the clock must advance exactly once, at the end of the iteration (after the checks that read it)", body[-1].where, st)
         return
+    # which clock value a local holds: the clock is versioned by its writes; `x = self.current_time` holds the version current at that point, `y = x` copies it
+    ver, tag, dver, at = 0, {}, None, {}
+    for e in body:
+        if e.kind == "call" and e.d["meth"] == "detect_deadlock":
+            dver = ver
+        elif e.kind == "assign":
+            t = e.d["target"]
+            raw = unparse(e.d["value_node"]) if e.d.get("value_node") is not None else e.d["value"]
+            if t == "self.current_time":
+                ver += 1
+            elif raw == "self.current_time":
+                tag[t] = ver
+            elif raw in tag:
+                tag[t] = tag[raw]
+            else:
+                tag.pop(t, None)
+            at[id(e)] = (ver, tag.get(raw) if raw != "self.current_time" else ver)
+    event_ver = 0           # the version during which the event of this iteration, its bookkeeping and the detection run
     facts = {}
     for idx, e in enumerate(body):
         if e.kind == "guard":
@@ -326,7 +360,7 @@ def check_iteration(body, viol, st, ob):
         if not visited and not ws:
             viol("first-visit-not-recorded", "times_dictionary[state]", "a newly visited state must get its first-visit time", body[0].where, st)
     for e in ws:
-        if e.d["value"] != "self.current_time":
+        if at.get(id(e), (None, None))[1] != event_ver:
             viol("first-visit-not-clock", e.text, "the first-visit time must be the clock of the event", e.where, st)
         key = e.d["target"][len("self.times_dictionary["):-1]
         if first and key != first[0][1]:
@@ -343,7 +377,8 @@ def check_iteration(body, viol, st, ob):
     if dl is True and not ts:
         viol("deadlock-time-not-taken", seq, "deadlock detected but time_of_deadlock is not set in this iteration", body[0].where, st)
     for e in ts:
-        if e.d["value"] != "self.current_time":
+        held = at.get(id(e), (None, None))[1]
+        if held is None:
             viol("deadlock-time-not-clock", e.text, "time_of_deadlock must be the clock of the deadlocking event", e.where, st)
-        if body.index(e) > max(i for i, x in enumerate(body) if x.kind == "assign" and x.d["target"] == "self.current_time"):
+        elif held != event_ver:
             viol("deadlock-time-after-clock", e.text, "time_of_deadlock is taken after the clock has advanced to the next event", e.where, st)
